@@ -119,21 +119,26 @@ def check(ctx):
                        f'naming the floating species by a plain string selects the wrong reference atoms')
     # ---- R2
     sets = {}
-    for name, fi in ctx.p.cls(TRAJ).methods.items():
-        for n in ast.walk(fi.node):
-            if isinstance(n, ast.Call) and isinstance(n.func, ast.Name) and n.func.id == 'isinstance' and len(n.args) == 2:
-                subj = n.args[0]
-                # only assertions about items of self.species
-                loop = None
-                for f_ in ast.walk(fi.node):
-                    if isinstance(f_, ast.For) and norm_text(f_.iter) == 'self.species' and isinstance(f_.target, ast.Name) and isinstance(subj, ast.Name) \
-                            and f_.target.id == subj.id and any(x is n for x in ast.walk(f_)):
-                        loop = f_
-                if loop is None:
-                    continue
-                t = n.args[1]
-                names = sorted(norm_text(e).split('.')[-1] for e in (t.elts if isinstance(t, ast.Tuple) else [t]))
-                sets[(fi.qualname, id(n))] = (fi, n, tuple(names))
+    # isinstance tests applied to items of a species list, in the trajectory methods and the private helpers they call
+    for name, mfi in sorted(ctx.p.cls(TRAJ).methods.items()):
+        calls_isinstance = any(isinstance(n, ast.Name) and n.id == 'isinstance' for n in ast.walk(mfi.node))
+        helper_calls = any(isinstance(n, ast.Call) and isinstance(n.func, ast.Name) and n.func.id.startswith('_') for n in ast.walk(mfi.node))
+        if not (calls_isinstance or helper_calls):
+            continue
+        mit = ctx.entry(mfi.qualname)
+        reached = {mfi.qualname: mfi}
+        for e in mit.events:
+            if e['where'] is not None and under(mfi.qualname)(e):
+                reached[e['where'].qualname] = e['where']
+        for fi in reached.values():
+            for n in ast.walk(fi.node):
+                if isinstance(n, ast.Call) and isinstance(n.func, ast.Name) and n.func.id == 'isinstance' and len(n.args) == 2:
+                    sv = mit.value_of(n.args[0])
+                    if sv is None or sv.ty not in ('Species', 'Element'):
+                        continue
+                    t = n.args[1]
+                    names = sorted(norm_text(e).split('.')[-1] for e in (t.elts if isinstance(t, ast.Tuple) else [t]))
+                    sets[(fi.qualname, id(n))] = (fi, n, tuple(names))
     if sets:
         widest = max((v[2] for v in sets.values()), key=len)
         for fi, n, names in sets.values():
